@@ -99,6 +99,13 @@ def DomainsTable.tryAdd (hf : HashFns) (t : DomainsTable) (r : NetRule) (idx : I
   else if r.permDomains.any (fun d => hasSuffix d (lit ".*")) then none
   else some ⟨r.permDomains.foldl (fun lk d => pushIdx lk (hf.h d) idx) t.lookup⟩
 
+/-- `DomainsTable.TryAdd` BEFORE the D1 repair (kept only for the negation witness in Props/C01):
+    a wildcard-TLD domain is filed under its literal text. -/
+def DomainsTable.tryAddOld (hf : HashFns) (t : DomainsTable) (r : NetRule) (idx : Idx) :
+    Option DomainsTable :=
+  if r.permDomains.isEmpty then none
+  else some ⟨r.permDomains.foldl (fun lk d => pushIdx lk (hf.h d) idx) t.lookup⟩
+
 /-- One step of the loop of `getSubdomains` (Go walks `parts` from the last to the first). -/
 def subdomainStep (p : Bytes) (acc : Bytes × List Bytes) : Bytes × List Bytes :=
   let d := if acc.1.isEmpty then p else p ++ ch '.' :: acc.1
